@@ -34,8 +34,17 @@ Scopes == {"Module", "Package", "Class"}       \* CanContainImportsDocumentable
 
 EmptySt == [objs |-> <<>>, cont |-> <<>>, ord |-> <<>>, all |-> Empty, alias |-> <<>>, aord |-> <<>>, roots |-> <<>>, crash |-> FALSE]
 
+\* a name component: [b |-> base name, d |-> 0] is the plain name, d = i + 1 is the string "name i"
+P(n) == [b |-> n, d |-> 0]
+DupName(n, i) == [b |-> n, d |-> i + 1]
+\* System.allobjects is keyed by STRINGS: a name that contains a dot (astbuilder names the setter of property x "x.setter")
+\* contributes several components to the key, so (C, "x.setter") and (C.x, "setter") are the same key.
+\* DottedNames: name -> its dot-separated parts; empty unless a configuration overrides it.
+DottedNames == [x \in {} |-> <<>>]
+Parts(n) == IF n \in DOMAIN DottedNames THEN DottedNames[n] ELSE <<n>>
+Comps(c) == LET ps == Parts(c.b) IN [i \in 1..Len(ps) |-> IF i = Len(ps) THEN [b |-> ps[i], d |-> c.d] ELSE P(ps[i])]
 RECURSIVE FullNameIn(_, _)
-FullNameIn(o, ob) == IF ob[o].par = NoObj THEN <<ob[o].name>> ELSE Append(FullNameIn(ob[o].par, ob), ob[o].name)
+FullNameIn(o, ob) == IF ob[o].par = NoObj THEN Comps(ob[o].name) ELSE FullNameIn(ob[o].par, ob) \o Comps(ob[o].name)
 FN(st, o) == FullNameIn(o, st.objs)
 Get(st, q) == IF q \in DOMAIN st.all THEN st.all[q] ELSE NoObj
 Cls(st, o) == st.objs[o].cls
@@ -55,9 +64,6 @@ Unreg(all, objs, S) == [k \in {k \in DOMAIN all : ~(\E x \in S : FullNameIn(x, o
 OrdPut(s, n) == IF n \in Rng(s) THEN s ELSE Append(s, n)            \* dict: re-assigning keeps the position
 OrdDel(s, n) == SelectSeq(s, LAMBDA x : x # n)
 
-\* a name component: [b |-> base name, d |-> 0] is the plain name, d = i + 1 is the string "name i"
-P(n) == [b |-> n, d |-> 0]
-DupName(n, i) == [b |-> n, d |-> i + 1]
 SetAlias(st, o, n, v) == [st EXCEPT !.alias[o] = Put(@, n, v), !.aord[o] = OrdPut(@, n)]
 
 \* ---------------------------------------------------------------- System.addObject (+ handleDuplicate)
@@ -75,15 +81,22 @@ AddObj(st, cls, name, par, site) ==
   IN IF key \notin DOMAIN st.all
        THEN [base EXCEPT !.all = Put(st.all, key, o)]
        ELSE \* handleDuplicate(obj): first free "name i", _remove(prev), rename prev, readd(prev), overwrite key
-         LET WithDup(i) == [key EXCEPT ![Len(key)] = DupName(name, i)]
+         \* (fullName + ' ' + str(i): the index goes on the last component of the KEY; the previous holder keeps its own
+         \*  name + ' i' and, when it is not a sibling - dotted names -, loses the entry its parent still has for it)
+         LET WithDup(i) == [key EXCEPT ![Len(key)].d = i + 1]
              i     == CHOOSE i \in 0..Len(st.objs) : WithDup(i) \notin DOMAIN st.all /\ \A j \in 0..(i-1) : WithDup(j) \in DOMAIN st.all
              prev  == st.all[key]
+             pn    == objs1[prev].name.b
+             pp    == objs1[prev].par
              sub   == SubIn(prev, st.all, objs1)
-             objs2 == [objs1 EXCEPT ![prev].name = DupName(name, i)]
+             objs2 == [objs1 EXCEPT ![prev].name = DupName(pn, i)]
              a1    == Unreg(st.all, objs1, sub)
              newk  == {FullNameIn(x, objs2) : x \in sub}
              a2    == [k \in DOMAIN a1 \cup newk |-> IF k \in newk THEN CHOOSE x \in sub : FullNameIn(x, objs2) = k ELSE a1[k]]
-         IN [base EXCEPT !.objs = objs2, !.all = Put(a2, key, o)]
+             stray == pp # NoObj /\ pp # par /\ pn \in DOMAIN cont1[pp] /\ cont1[pp][pn] = prev
+             cont2 == IF stray THEN [cont1 EXCEPT ![pp] = Del(@, pn)] ELSE cont1
+             ord2  == IF stray THEN [ord1 EXCEPT ![pp] = OrdDel(@, pn)] ELSE ord1
+         IN [base EXCEPT !.objs = objs2, !.all = Put(a2, key, o), !.cont = cont2, !.ord = ord2]
 
 \* ---------------------------------------------------------------- Documentable.reparent(new_parent, new_name)
 Reparent(st, ob, np, nn) ==
@@ -95,10 +108,12 @@ Reparent(st, ob, np, nn) ==
       key   == FullNameIn(ob, objs0)
       \* the name is in use in the new parent: the resident is superseded like by a redefinition (handleDuplicate)
       res   == IF key \in DOMAIN a0 /\ a0[key] # ob THEN a0[key] ELSE NoObj
-      WithDup(i) == [key EXCEPT ![Len(key)] = DupName(nn, i)]
+      WithDup(i) == [key EXCEPT ![Len(key)].d = i + 1]
       di    == CHOOSE i \in 0..Len(st.objs) : WithDup(i) \notin DOMAIN a0 /\ \A j \in 0..(i-1) : WithDup(j) \in DOMAIN a0
       rsub  == IF res = NoObj THEN {} ELSE SubIn(res, a0, objs0)
-      objs1 == IF res = NoObj THEN objs0 ELSE [objs0 EXCEPT ![res].name = DupName(nn, di)]
+      rn    == IF res = NoObj THEN nn ELSE objs0[res].name.b
+      rp    == IF res = NoObj THEN NoObj ELSE objs0[res].par
+      objs1 == IF res = NoObj THEN objs0 ELSE [objs0 EXCEPT ![res].name = DupName(rn, di)]
       a1    == IF res = NoObj THEN a0
                ELSE LET ar == Unreg(a0, objs0, rsub)
                         rk == {FullNameIn(x, objs1) : x \in rsub}
@@ -108,8 +123,12 @@ Reparent(st, ob, np, nn) ==
   IN IF \/ op = NoObj \/ Cls(st, op) \notin Scopes              \* assert isinstance(old_parent, CanContainImports..)
         \/ st.objs[ob].name.d # 0 \/ on \notin DOMAIN st.cont[op]  \* del old_parent.contents[old_name]: KeyError
        THEN [st EXCEPT !.crash = TRUE]
-       ELSE LET cont1 == [st.cont EXCEPT ![op] = Del(@, on)]
-                ord1  == [st.ord EXCEPT ![op] = OrdDel(@, on)]
+       ELSE LET cont0 == [st.cont EXCEPT ![op] = Del(@, on)]
+                ord0  == [st.ord EXCEPT ![op] = OrdDel(@, on)]
+                \* a superseded resident that is not a sibling (dotted names) loses the entry its parent has for it
+                stray == res # NoObj /\ rp # NoObj /\ rp # np /\ rn \in DOMAIN cont0[rp] /\ cont0[rp][rn] = res
+                cont1 == IF stray THEN [cont0 EXCEPT ![rp] = Del(@, rn)] ELSE cont0
+                ord1  == IF stray THEN [ord0 EXCEPT ![rp] = OrdDel(@, rn)] ELSE ord0
                 cont2 == [cont1 EXCEPT ![np] = Put(@, nn, ob)]
                 ord2  == [ord1 EXCEPT ![np] = OrdPut(@, nn)]
             IN [st EXCEPT !.objs = objs1, !.all = all1, !.cont = cont2, !.ord = ord2,
